@@ -176,7 +176,11 @@ class Histogram1D(ObjectWithBinning, HistogramBase):
             self._stats = stats or INVALID_STATISTICS
 
         if self.keep_missed:
-            self._missed = np.array(missed, dtype=self.dtype)
+            if self.dtype.kind in "iu" and np.isnan(np.asarray(missed, dtype=float)).any():
+                # NaN (= unknown, e.g. for inconsecutive bins) cannot be stored as integer
+                self._missed = np.array(missed, dtype=float)
+            else:
+                self._missed = np.array(missed, dtype=self.dtype)
         else:
             self._missed = np.zeros(3, dtype=self.dtype)
 
